@@ -117,6 +117,16 @@ func init() {
       leaf cl { type string; }
     }
   }
+  list reading {
+    key "q";
+    leaf q { type enumeration { enum "n/a"; enum "mg/l"; enum "a+b"; enum "B,C"; enum "x=y"; enum plain; } }
+    leaf val { type int32; }
+  }
+  list blob {
+    key "id";
+    leaf id { type binary; }
+    leaf bv { type string; }
+  }
   list rows {
     key "a b";
     leaf a { type string; }
